@@ -70,9 +70,7 @@ def run(F, R):
             v = vals[0] if vals else "?"
             if v == "0":
                 resets.append(x)
-            elif v.startswith("AddWithOverflow(") and v.endswith(", 1).0") and "consecutive_failed_update_checks" in v:
-                incs.append(x)
-            elif v.startswith("add_assign(") and v.endswith(", 1)"):
+            elif _is_increment(v):
                 incs.append(x)
             else:
                 other.append((x, v))
@@ -102,7 +100,7 @@ def run(F, R):
         pw = pin(sm.writes(Sr, *FC))
         presets = [x for x in pw if write_value(Sr, sm, x, FC) == ["0"]]
         pincs = [x for x in pw if x not in presets]
-        badv = [write_value(Sr, sm, x, FC) for x in pincs if not all(v.endswith(", 1).0") or v.endswith(", 1)") for v in write_value(Sr, sm, x, FC))]
+        badv = [write_value(Sr, sm, x, FC) for x in pincs if not all(_is_increment(v) for v in write_value(Sr, sm, x, FC))]
         prets = set(pc.returns)
         if R.floor("C08-R1", "ping exchange/parse result tests", min(len(ex_ok), len(ex_err), len(pa_ok), len(pa_err)), 1):
             R.check("C08-R1", "ping-values", not badv and presets and pincs, "ping: %d reset, %d increments by one" % (len(presets), len(pincs)), "ping writes %s" % badv)
@@ -250,6 +248,16 @@ def run(F, R):
             R.violation("C08-R5", "uncommitted:" + k, "a storage write reaches %s without an intervening commit: %s" % (Sr.ev[h], Sr.fmt_path(p) if p else ""), Sr.nodes[x].loc())
         if not bad:
             R.holds("C08-R5", "all-writes-committed", "%d write sites, each followed by a commit before the next request/reboot/decision (%d storage-failure edges exempt)" % (len(sets), len(storage_err)))
+
+
+def _is_increment(v):
+    """x + 1 in any of its spellings (plain, compound, saturating, checked): the counter's own
+    previous value plus the constant one."""
+    import re
+    f = r"param1\.0\.context\.state\.consecutive_failed_update_checks"
+    pats = [r"AddWithOverflow\(%s, 1\)\.0" % f, r"add_assign\(%s, 1\)" % f, r"saturating_add\(%s, 1\)" % f,
+            r"unwrap_or\(checked_add\(%s, 1\), [^)]*\)" % f, r"Add\(%s, 1\)" % f]
+    return any(re.fullmatch(p, v) for p in pats)
 
 
 def _k(S, x):
